@@ -13,20 +13,30 @@ for name in sorted(os.listdir(os.path.join(ROOT, 'seeded'))):
     meta = json.load(open(os.path.join(d, 'meta.json')))
     prop = meta['property']
     env = dict(os.environ, MUT_SLOT='3')
-    base = meta.get('apply_on') or head
+    base = head
     # does the patch still apply on HEAD?
     chk = subprocess.run(['git', '-C', '/repo', 'apply', '--check', os.path.join(d, 'patch.diff')], capture_output=True)
+    meta.pop('apply_on', None)
+    meta.pop('apply_note', None)
     if chk.returncode != 0:
         base = meta['confirmed']['repo_commit']
         meta['apply_on'] = base
         meta['apply_note'] = 'no longer applies on the current tree: a later fix: commit rewrote the code it changes; run against its base commit'
+    already = set()
     if base != head:
         env['MUT_BASE'] = base
+        # what the check reports on that older tree WITHOUT the change (defects repaired since) is not credited to the change
+        key = (base, prop)
+        if key not in BASES:
+            noop = os.path.join(ROOT, 'tools', 'noop.diff')
+            r0 = subprocess.run([os.path.join(ROOT, 'tools', 'try_mutant.sh'), noop, prop, 'quick'], capture_output=True, text=True, env=env)
+            BASES[key] = set(re.findall(r'signature=(\S+)', open('/dev/shm/mutrun3/out.txt').read()))
+        already = BASES[key]
     r = subprocess.run([os.path.join(ROOT, 'tools', 'try_mutant.sh'), os.path.join(d, 'patch.diff'), prop, 'quick'], capture_output=True, text=True, env=env)
-    out = r.stdout
-    m = re.search(r'violations: (\d+)', out)
-    sigs = re.findall(r'signature=(\S+)', out)
-    meta['detected_by'] = {prop: {'tier': 'quick', 'violations': int(m.group(1)) if m else None, 'signatures': sigs[:5], 'checked_at_repo_commit': base,
+    out = open('/dev/shm/mutrun3/out.txt').read()
+    sigs = [x for x in re.findall(r'signature=(\S+)', out) if x not in already]
+    m = re.search(r'(\d+)', str(len(sigs)))
+    meta['detected_by'] = {prop: {'tier': 'quick', 'violation_signatures': len(sigs), 'signatures': sigs[:5], 'checked_at_repo_commit': base,
                                   'command': 'tools/try_mutant.sh seeded/%s/patch.diff %s quick' % (name, prop)}}
     json.dump(meta, open(os.path.join(d, 'meta.json'), 'w'), indent=1)
     print(name, prop, 'violations', m.group(1) if m else '?', sigs[:2], flush=True)
